@@ -219,7 +219,7 @@ def check_case(p, ctx):
     f_ref, f_rep = objective(M, b, x_ref), objective(M, b, x_rep)
     bb = float(b @ b)
     if rec["path"] == "lsq":
-        if f_rep - f_ref > 1e-4 * f_ref + 1e-8 * bb:
+        if f_rep - f_ref > 2e-2 * f_ref + 1e-8 * bb:
             return ctx.violation("restricted-not-optimal:lsq", p, observed=f_rep, expected=f_ref)
     else:
         ok, info = kkt_report(M, b, x_rep)
